@@ -132,6 +132,13 @@ def gen_rw_chain(rng, k):
         ch["netcdf"] = True
         ch["cont"] = rw_call(rng, 9, rng.choice(["ndl", "ndl", "dict_ndl", "wh_bb"]))
         ch["cont"].pop("input", None) if ch["cont"]["learner"] == "ndl" else None   # no spool path here
+        if rng.random() < 0.4:
+            # the continuation trains the events of the last call again: no new cue, no new outcome
+            ch["cont"]["events"] = [list(map(list, e)) for e in calls[-1]["events"]]
+            ch["cont"]["freq"] = calls[-1]["freq"]
+            if isinstance(ch["cont"].get("alpha"), dict) and ch["cont"]["alpha"].get("kind") == "dict":
+                names = sorted({x for cs, _ in ch["cont"]["events"] for x in cs})
+                ch["cont"]["alpha"] = {"kind": "dict", "v": {x: ratio(rng.choice(FLOATS[:6])) for x in names}}
     return ch
 
 
@@ -515,6 +522,11 @@ def check_chain(ctx, chain, res, env, findings, mres, layout):
         rep.hist("netcdf_labels", "non-ascii" if any(ord(ch) > 127 for x in labels for ch in x) else "ascii")
         if "" in labels:
             rep.bump("netcdf_with_empty_label")
+        if nc.get("orig_still_equals_file") is False or nc.get("loaded_still_equals_file") is False:
+            which = "in-memory weights" if nc.get("orig_still_equals_file") is False else "weights loaded from the file"
+            return ("the %s no longer equal the netCDF file saved from them after learning was continued from them: %s"
+                    % (which, nc.get("still_why")),
+                    {"correspondence": "X-attrs/netcdf-continue", "case": desc})
         if "cont_equal" in nc:
             rep.bump("netcdf_continuations")
             if not nc["cont_equal"]:
